@@ -10,6 +10,7 @@ import (
 	"os"
 	"os/exec"
 	"path/filepath"
+	"runtime"
 	"time"
 
 	"verif/harness/internal/core"
@@ -47,6 +48,7 @@ func Run(c *core.Ctx, bin, dir string, args []string, trace string, timeout time
 	if timeout == 0 {
 		timeout = 20 * time.Second
 	}
+	timeout = scaleByLoad(timeout)
 	ctx, cancel := context.WithTimeout(context.Background(), timeout)
 	defer cancel()
 	cmd := exec.CommandContext(ctx, bin, args...)
@@ -80,6 +82,27 @@ func Run(c *core.Ctx, bin, dir string, args []string, trace string, timeout time
 		r.Events = evs
 	}
 	return r, nil
+}
+
+// scaleByLoad stretches a wall-clock limit by the machine's load per CPU (at most 6x): a limit exists to
+// catch a goderive that hangs, and on a starved machine a correct run must not be mistaken for one.
+func scaleByLoad(d time.Duration) time.Duration {
+	data, err := os.ReadFile("/proc/loadavg")
+	if err != nil {
+		return d
+	}
+	var l1 float64
+	if _, err := fmt.Sscanf(string(data), "%f", &l1); err != nil {
+		return d
+	}
+	f := l1 / float64(runtime.NumCPU())
+	if f < 1 {
+		return d
+	}
+	if f > 6 {
+		f = 6
+	}
+	return time.Duration(float64(d) * f)
 }
 
 func ReadTrace(path string) ([]map[string]interface{}, error) {
